@@ -22,6 +22,21 @@ COMMON_ASSUMPTIONS = [
 ]
 
 
+EXHAUSTIVE_SUBSPACE = (
+    "controlled scheduler (harness/hub/control.go): a step is taken only when every client thread is blocked at the gate or finished; events = "
+    "every RPC and the start of every transaction (Begin, i.e. the fetch of its start ts); any other timestamp fetch happens inside the step that leads to it. "
+    "DFS with replay-from-scratch over ALL choice sequences of every multiset of programs from the alphabet {rw(opt|pess,k) = get k; [lock k]; set k; commit, "
+    "lw(k) = lock k; set k; commit, sr(opt|pess,k) = [lock k]; set k; rollback, w2(opt | pess primary a | pess primary b) = set a; set b; commit, r2 = get a; get b} "
+    "(pessimistic locks are no-wait; key a holds a committed value, key b none). quick: all pairs over one key on one region; "
+    "thorough: all pairs over two keys on one region, on two regions the one-key programs on a and the reader against every two-key program plus w2(opt)|w2(pess), "
+    "and the triples over {rw(opt,a), lw(a), sr(pess,a)}; profile full with async commit (thorough: and 1PC). "
+    "Stutter pruning (the only reduction): a request is not offered while the same client has already executed a request with the same label against the same "
+    "store state (dump of both keys) — a retry of a blocked read/prewrite/lock while nobody else moved; if nothing else is enabled it is executed. The pruned "
+    "schedules differ from an enumerated one only by such repeated requests with identical answers; exhaustion of a retry budget by starvation is not covered. "
+    "Labels blank the wall-clock dependent request fields (lock ttl, max_commit_ts). A combination over the schedule limit is listed in incomplete_combinations "
+    "and is not part of the claim.")
+
+
 def impl_side(c, ops_file, impl_file, max_report=6):
     """events raised by the harness itself: hang, mockpanic (implementation side FAIL …)"""
     ops = open(ops_file).read().splitlines()
@@ -77,6 +92,17 @@ def run_hub(pid, a, rule, assumptions=()):
         c.cov["input_distribution" + key] = {k: v for k, v in st.items() if not k.startswith("api:")}
         c.cov["api_calls" + key] = {k[4:]: v for k, v in st.items() if k.startswith("api:")}
         c.cov["programs"] = c.cov.get("programs", 0) + st.get("scenarios", 0)
+        exh = {k[4:]: v for k, v in st.items() if k.startswith("exh:")}
+        if exh:
+            # the enumerated sub-space (hubrun/exh.go): exhaustive only if no combination was cut, lost or diverged for good
+            complete = exh.get("incomplete-combos", 0) == 0 and exh.get("lost-branch", 0) == 0
+            c.cov["exhaustive" + key] = {"exhaustive": bool(complete), "schedules": exh.get("schedules", 0), "combinations": exh.get("combos", 0),
+                                          "incomplete_combinations": {k[len("incomplete:"):]: v for k, v in exh.items() if k.startswith("incomplete:")},
+                                          "replay_divergences_retried": exh.get("divergence", 0), "late_arrivals_added": exh.get("late-arrivals", 0),
+                                          "lost_branches": exh.get("lost-branch", 0), "stutter_pruned_steps": exh.get("stutter-pruned", 0),
+                                          "forced_stutter_steps": exh.get("forced-stutter", 0),
+                                          "by_family": {k: v for k, v in exh.items() if k.endswith(":schedules") or k.endswith(":combos")},
+                                          "sub_space": EXHAUSTIVE_SUBSPACE}
         m = c.run_model(exe, ops, tag=prof)
         if m:
             c.diff_judge(ops, m)
